@@ -736,7 +736,7 @@ func tailS(b []byte) string {
 
 // Run is the C13 monitor.
 func Run(r *ev.Run) {
-	r.Rule = "writers: every zap-provided writer x payload table (empty, whitespace-only, trailing newlines, 1 MiB, random); BufferedWriteSyncer over sinks that accept only part of each write (nil error) or fail once, with write lengths around and above Size; multi-syncer: every outcome vector over {full,short,zero}x{nil,error} for k sinks enumerated, on Write and Sync; wrappers: AddSync/Lock relay table; Lock exclusion: concurrent Write/Sync in a -race child with an unsynchronised in-flight counter; distinct = distinct (writer,payload) / vectors / runs"
+	r.Rule = "writers: every zap-provided writer x payload table (empty, whitespace-only, trailing newlines, 1 MiB, random); BufferedWriteSyncer over sinks that accept only part of each write (nil error) or fail once, with write lengths around and above Size; multi-syncer: every outcome vector over {full,short,zero}x{nil,error} for k sinks enumerated, on Write and Sync; wrappers: AddSync/Lock relay table; Lock exclusion: concurrent Write/Sync in a -race child with an unsynchronised in-flight counter; distinct = distinct (writer,payload) / vectors / runs; late writes: a syncer written to after Stop next to a fresh syncer of the same size, each sink compared with what its syncer acknowledged"
 	// every part runs under a watchdog: a wrapper that keeps its mutex after an error would
 	// otherwise hang the check itself; blocked-forever is decided by quiescence, not by time
 	for _, part := range []struct {
